@@ -15,6 +15,10 @@ use crate::{
     util::{dump, heads, offer_remote, Scratch},
 };
 
+thread_local! {
+    static LIVE_HEADS: std::cell::RefCell<Vec<Option<BTreeMap<[u8; 32], (u64, Vec<u8>)>>>> = const { std::cell::RefCell::new(vec![]) };
+}
+
 fn delete_tables(path: &std::path::Path, names: &[&str]) -> anyhow::Result<Vec<String>> {
     let db = redb::Database::create(path)?;
     let tx = db.begin_write()?;
@@ -58,9 +62,21 @@ fn one(ctx: &mut Ctx, case: u64, rng: &mut Rng, scratch: &Scratch) {
             }
         }
         store.flush().unwrap();
+        LIVE_HEADS.with(|h| {
+            let mut v = vec![];
+            for u in &unis {
+                v.push(heads(&mut store, u.ns.id()).ok());
+            }
+            *h.borrow_mut() = v;
+        });
     }
     ctx.eval();
     let ids: Vec<NamespaceId> = unis.iter().map(|u| u.ns.id()).collect();
+    // full heads (with keys) as the live store reported them before it was closed
+    let mut prev_heads: Vec<Option<BTreeMap<[u8; 32], (u64, Vec<u8>)>>> = LIVE_HEADS.with(|h| h.borrow().clone());
+    if prev_heads.len() != ids.len() {
+        prev_heads = vec![None; ids.len()];
+    }
     // reference: the records themselves (from a plain reopen)
     let mut reference = vec![];
     {
@@ -120,6 +136,21 @@ fn one(ctx: &mut Ctx, case: u64, rng: &mut Rng, scratch: &Scratch) {
                     "expected": want.iter().map(|(a, t)| format!("{}@{}", hex::encode(&a[..2]), t % 1_000_000)).collect::<Vec<_>>(),
                     "records": dm.values().map(|e| E::of(e).short()).collect::<Vec<_>>()}));
                 return;
+            }
+            // reopening an up-to-date database is a no-op for the heads including their keys: compare
+            // with the previous observation unless the head table was deleted in between
+            if let Ok(hd) = heads(&mut store, *id) {
+                let rebuilt_now = cycle == 0 && names.contains(&"latest-by-author-1");
+                if let (false, Some(prev)) = (rebuilt_now, &prev_heads[i]) {
+                    ctx.count("head_key_checks", 1);
+                    if *prev != hd {
+                        ctx.violation(case, "heads-changed-by-reopening-an-up-to-date-database", json!({"doc": i, "cycle": cycle, "deleted": names,
+                            "before": prev.iter().map(|(a, (t, k))| format!("{}@{}:{}", hex::encode(&a[..2]), t % 1_000_000, hex::encode(k))).collect::<Vec<_>>(),
+                            "after": hd.iter().map(|(a, (t, k))| format!("{}@{}:{}", hex::encode(&a[..2]), t % 1_000_000, hex::encode(k))).collect::<Vec<_>>()}));
+                        return;
+                    }
+                }
+                prev_heads[i] = Some(hd);
             }
             // head keys must name an entry with that timestamp
             if let Ok(hd) = heads(&mut store, *id) {
